@@ -427,7 +427,7 @@ def main():
     # may only say that the machine was busy.  Such a case is replayed alone, up to three times; it is kept as a
     # failure only if it fails every time (a deterministic defect always reproduces; the replay is what is reported).
     retimed = retimed_cleared = 0
-    retry_pat = re.compile(cfg.get("retry_sigs", r"(C08:reply-lost$|C08:error$|C05:recovery-error|C05:timing|C03:frame-incomplete|:error:timeout$|C06:slow|C09:open-failed|C10:outcome|C12:error:timeout|C18:timeouts-first-send|C18:stale-timeout|C18:next-timeout-ignored)"))
+    retry_pat = re.compile(cfg.get("retry_sigs", r"(C08:reply-lost$|C08:error$|C05:recovery-error|C05:timing|C03:frame-incomplete|:error:timeout$|C06:slow|C09:open-failed|C10:outcome|C12:error:timeout|C18:timeouts-first-send|C18:stale-timeout|C18:next-timeout-ignored|C05:per-op-|C07:leak:generic-(standard|telnet)|C07:transport-open$)"))
     if not replay_file and not any(b[0] == "harness-build" for b in broken):
         for idx, c in enumerate(cases):
             if not c.get("oracle") or not retry_pat.search(c.get("sig") or "") or retimed >= 40:
